@@ -8,13 +8,15 @@
                        class 1 Atomic 2 Array 3 DependsOnArray 4 Object 5 OneOf 6 RefTo
                        json = node (the re-serialised .json() of that Schema object)
                        children = (tree ...) for 2,3,5 ; (((key) tree) ...) for 4 ; () otherwise
-                       target = () | ((path))   path of the object ref_to / max_ref_to points at
+                       target = () | ((path))   path of the object ref_to (class 6) / max_ref_to (class 3) points at;
+                                                 compared with the model's binding (schema_eqb) and with the
+                                                 sub-schema bearing the anchor (refs_resolved, tables_bound)
      inst    = JSON value: (0) null (1 b) (2 z) (3 (codepoints)) (4 (v ...)) (5 (((key) v) ...))
      navobs  = ((path result) ...)   path = ((0 (name)) | (1 index) ...), result = (0 value) | (1 exn)
    Decoding uses explicit fuel; a case that does not decode is answered (9 ...). *)
 From Coq Require Import ZArith NArith List Bool.
 Import ListNotations.
-Require Import SR.Base.Sx SR.Base.Res SR.Spec.JsonDoc SR.Model.SchemaMaker.
+Require Import SR.Base.Sx SR.Base.Res SR.Spec.JsonDoc SR.Spec.JsonDocOdo SR.Model.SchemaMaker.
 Open Scope Z_scope.
 
 Definition obind {A B} (x : option A) (f : A -> option B) : option B :=
@@ -160,14 +162,25 @@ Definition res_obs_eqb {T} (eqb : T -> T -> bool) (o : obs T) (m : res T) : bool
 Definition value_eqb (o : obs jv) (x : jv) : bool :=
   match o with OVal y => jv_eqb y x | OExn _ => false end.
 
-(* property predicate on the observed load *)
+(* property predicate on the observed load.  A document of the grammar (maxItemsDependsOn included) is
+   refused only for a reference - $ref or maxItemsDependsOn - that names no anchor, and then with
+   ValueError; a loaded graph mirrors the document and every reference, max_ref_to of every
+   DependsOnArraySchema included, points at the sub-schema bearing the anchor. *)
 Definition good_load (d : js) (o : obs schema) : bool :=
   if wf d then
     match o with
-    | OExn k => (k =? exn_code ValueError) && (has_dangling d || has_depends d)
-    | OVal s => mirrors s d && negb (has_dangling d) && (if uniq_anchors d then refs_resolved d s else true)
+    | OExn k => (k =? exn_code ValueError) && dangling_any d
+    | OVal s => mirrors s d && negb (dangling_any d)
+                && (if uniq_anchors d then refs_resolved d s && tables_bound d s else true)
     end
   else true.
+
+(* trigger of candidate finding 2 (K-odo-forward-counter): a document of the grammar in which every
+   reference has its anchor, but some depending array's counter is not declared when the array
+   closes (it stands after the table, is the table itself or encloses it): Props/C15c.v
+   C15c_counter_not_declared / C15c_loads_depends_on_refuted *)
+Definition forward_counter (d : js) : bool :=
+  wf d && negb (dangling_any d) && negb (counters_declared d).
 
 (* property predicate on one observed navigation (s = the observed loaded graph) *)
 Definition good_nav (s : schema) (v : jv) (p : list step) (o : obs jv) : bool :=
@@ -207,7 +220,7 @@ Definition judge (c : sx) : sx :=
                                              | None => false end) navs
                 | Err _ => match navs with [] => true | _ => false end
                 end in
-      let known := if shadowed d then Some 1 else None in
+      let known := if shadowed d then Some 1 else if forward_counter d then Some 2 else None in
       let size := length (all_nodes d) in
       let base :=
         match walk d [] [] [] with
@@ -224,9 +237,10 @@ Definition judge (c : sx) : sx :=
         | Err AssertionError => 6
         | Err _ => 7
         end in
-      let branch := if (size <=? 1)%nat then 0 else base + (if wf d then 0 else 10) in
+      let branch := if (size <=? 1)%nat then 0 else base + (if wf d then 0 else 10) + (if has_depends d then 20 else 0) in
       verdict known (gl && gn) (al && an) branch
         (L [of_bool gl; of_bool al; of_bool gn; of_bool an;
-            match m with Ok _ => A 0 | Err e => A (exn_code e) end; of_bool (wf d); of_bool (uniq_anchors d)])
+            match m with Ok _ => A 0 | Err e => A (exn_code e) end; of_bool (wf d); of_bool (uniq_anchors d);
+            of_bool (dangling_any d); of_bool (counters_declared d)])
   | _, _, _ => answer_error 1
   end.
